@@ -1322,6 +1322,9 @@ def simp_sign_inf_zeroext(expr_s, expr):
         # cst is negative
         return ExprInt(0, expr.size)
     # cst is positive
+    if cst >= (1 << src.size):
+        # X.zeroExt() is always lower than cst
+        return ExprInt(1, expr.size)
     if expr.is_op(TOK_INF_SIGNED):
         # X.zeroExt() <s cst => X.zeroExt() <u cst (cst positive)
         return ExprOp(TOK_INF_UNSIGNED, src, expr_s(arg2[:src.size]))
